@@ -7,8 +7,15 @@ THEOREMS = ["SysLoss.C02." + t for t in (
     "eff_formula", "load_xor", "rise_lossload", "load_rise_full_fails", "pml_rloss", "pml_resid_switch",
     "pml_resid_linreg", "pml_resid_converter", "pml_resid_converter_noload", "pml_sleep", "pml_resid_mosfet",
     "pml_source", "pml_source_spec_partial", "source_balance_full_fails", "system_balance",
-    "series_core", "pml_vloss", "pml_diode", "pml_switch_steady")] + [
+    "series_core", "pml_vloss", "pml_diode", "pml_switch_steady",
+    # Props/C02Table: the rows assembled by the model's compRows in an exact steady state satisfy the balance
+    "row_power_identity", "row_power_identity_wf", "row_power_identity_source_partial", "row_power_identity_mux",
+    "local_fed", "local_source_partial", "local_mux", "compRow_domain_only", "compRows_numeric", "steady_currents_nonneg",
+    "node_balance", "node_balance_mux", "table_balance_partial", "table_balance_mux_partial",
+    "table_balance_of_nonneg_partial", "table_balance_mux_of_nonneg_partial", "table_balance_full_fails",
+    "table_balance_full_f01_fails", "converter_vo0_breaks_identity")] + [
     "SysLoss.sum_kids_exchange"]
+MODULES = ["SysLoss.Props.C02", "SysLoss.Props.C02Table"]
 LEVEL_TEXT = ("Theorems (Lean 4, any linearly ordered field, arbitrary row values): for every non-load kind the defect of "
               "Power-Loss = |Vout|*Iout is an explicit multiple of the row's deviation from its documented current law "
               "(hence zero in a steady state); 0 <= Loss <= Power and the efficiency formula within [0,100]; a load books its "
@@ -16,17 +23,30 @@ LEVEL_TEXT = ("Theorems (Lean 4, any linearly ordered field, arbitrary row value
               "losses) for every forest whose rows are linked as C01 states, by a sum-exchange lemma over the feeder map. "
               "Tied to the code on every run: Power/Loss/Efficiency/rise/peak of every row are re-assembled by the model from the "
               "implementation's own (v,i) and must agree to 1e-9, and every clause is evaluated on the returned table. "
-              "Partial: negative Source with series resistance (F01) and temperature rise of non-loss loads (F24) violate the "
-              "property, are test-pinned, proved as counterexamples (…_full_fails) and reported as KNOWN-FINDING.")
-LEVEL_NOTE = ("The link between the table assembler and the abstract forest of `system_balance` "
-              "are covered by correspondence + oracle, not by a theorem.")
+              "Props/C02Table closes the link to the model's own table: for every well-formed tree (with or without a PMux) in an exact "
+              "steady state of the model's sweeps the rows assembled by compRows satisfy Power - Loss = |Vout|*Iout per row and "
+              "sum(Source Power) = sum(Load Power + Loss) + sum(other Loss) over the table (`table_balance_partial`, "
+              "`table_balance_mux_partial`; all steady currents are >= 0 by induction from the leaves). "
+              "Partial: negative Source with series resistance (F01), temperature rise of non-loss loads (F24) and a Converter "
+              "set to vo = 0 that still books its quiescent loss (F35, found by the proof attempt: `converter_vo0_breaks_identity`) "
+              "violate the property, are test-pinned, proved as counterexamples (…_full_fails) and reported as KNOWN-FINDING.")
+LEVEL_NOTE = ("The table balance is proved for exact steady states; for tolerance-converged tables the residual form "
+              "(`pml_resid_*`) gives the per-row defect, the summed defect is checked by the oracle only.")
 RULE = ("random power trees as for C01 plus ambient temperature ta in [-60,150], thermal resistances on ~50% of the components, "
         "phases on 30% of the systems; non-trivial = solved and >= 3 components")
 ASSUMPTIONS = ["IEEE rounding outside the theorems; power-level tolerances derived from the solver's exit test"]
 
 
 def gen_fn(rng):
-    return gen.gen_system(rng, phases=0.3, p_rt=0.5, p_neg_src_rs=0.03)
+    d = gen.gen_system(rng, phases=0.3, p_rt=0.5, p_neg_src_rs=0.03)
+    if rng.random() < 0.03:
+        # dedicated stream for open finding F35: a Converter set to 0 V still books its quiescent loss
+        cs = [c for c in d["comps"] if c["kind"] == "converter"]
+        if cs:
+            c = rng.choice(cs)
+            c["args"]["vo"] = 0.0
+            c["args"]["iq"] = abs(c["args"].get("iq", 0.0)) or 1e-3
+    return d
 
 
 def solve_kw(rng):
